@@ -138,6 +138,8 @@ Definition agree (c : case) : bool := ores_eqb (model_out c) (c_out c).
    of anything done about a member that the batch call left out -- must verify against the
    signing root of ITS OWN message. *)
 Definition cannot_sign (bf : list N) (a : account) : bool := a_fail a || mem (a_key a) bf.
+(* [bf] below is c_batch_fail ++ c_single_fail: the accounts that the signer, during this request,
+   had no signature for in a batch call or failed for when asked alone *)
 
 Fixpoint sigs_ok (bf : list N) (ch : chain) (items : list (account * message)) (sigs : list psig) (ver : list bool) (roots : list N) : bool :=
   match items, sigs with
@@ -156,7 +158,7 @@ Fixpoint sigs_ok (bf : list N) (ch : chain) (items : list (account * message)) (
 
 Definition P_b (c : case) : bool :=
   match c_out c with
-  | OOk sigs => sigs_ok (c_batch_fail c) (c_chain c) (request_items (c_req c)) sigs (c_verified c) (c_roots c)
+  | OOk sigs => sigs_ok (c_batch_fail c ++ c_single_fail c) (c_chain c) (request_items (c_req c)) sigs (c_verified c) (c_roots c)
   | _ => true
   end.
 
@@ -191,7 +193,7 @@ Lemma P_b_sound c sigs :
   P_b c = true -> c_out c = OOk sigs ->
   length sigs = length (request_items (c_req c)) /\
   forall i a m s, nth_error (request_items (c_req c)) i = Some (a, m) -> nth_error sigs i = Some s ->
-    (s = PZero /\ cannot_sign (c_batch_fail c) a = true) \/
+    (s = PZero /\ cannot_sign (c_batch_fail c ++ c_single_fail c) a = true) \/
     (s <> PZero /\ nth_error (c_verified c) i = Some true /\
      nth_error (c_roots c) i = Some (spec_signing_root Hc (c_chain c) m)).
 Proof. unfold P_b. intros Hp Ho. rewrite Ho in Hp. apply sigs_ok_sound. exact Hp. Qed.
